@@ -74,6 +74,26 @@ def check(pl):
             cnt[r.as_int] += 1
         if not numpy.array_equal(rf, cnt) or len(sc.readouts) != order.count(k):
             return f"subcircuit {k}: relative frequencies {rf.tolist()} are not the counts of its {order.count(k)} readouts"
+    # history: the same backend object used for several runs, and a second program in between - every run reports
+    # exactly its own subcircuits and readouts
+    from jaqalpaq.emulator.unitary import UnitarySerializedEmulator
+    be = UnitarySerializedEmulator()
+    other = parse_native("register q[2]\nprepare_all\nX q[0]\nmeasure_all\nprepare_all\nmeasure_all\n")
+    for rnd in (1, 2, 3):
+        try:
+            rr = run_jaqal_circuit(c, backend=be)
+            if rnd == 1:
+                ro = run_jaqal_circuit(other, backend=be)
+                if len(ro.subcircuits) != 2 or len(ro.readouts) != 2:
+                    return f"a second program run on the same backend object reports {len(ro.subcircuits)} subcircuits / {len(ro.readouts)} readouts, expected 2 / 2"
+        except JaqalError as ex:
+            return f"run {rnd} on a reused backend object is rejected: {ex}"
+        if len(rr.subcircuits) != len(segs) or [r.subcircuit.index for r in rr.readouts] != order:
+            return (f"run {rnd} on a reused backend object reports {len(rr.subcircuits)} subcircuits and attribution "
+                    f"{[r.subcircuit.index for r in rr.readouts]}, reference {len(segs)} / {order}")
+        for k, sc in enumerate(rr.subcircuits):
+            if len(sc.readouts) != order.count(k) or numpy.asarray(sc.relative_frequency_by_int).sum() != order.count(k):
+                return f"run {rnd} on a reused backend object: subcircuit {k} holds {len(sc.readouts)} readouts, expected {order.count(k)}"
     # hardware output lists
     outs_int = [(7 * i + 1) % (2 ** n) for i in range(len(order))]
     outs_str = [format(v, "b").zfill(n)[::-1] for v in outs_int]
